@@ -457,6 +457,11 @@ def fold(t, env, calls=None):
         a = _num(fold(t[2], env, calls))
         if isinstance(a, bool):
             a = int(a)
+        if t[1] in INT_BITS and isinstance(a, float):
+            if a != a:
+                return 0
+            lo, hi = (0, (1 << INT_BITS[t[1]]) - 1) if t[1].startswith("u") else (-(1 << (INT_BITS[t[1]] - 1)), (1 << (INT_BITS[t[1]] - 1)) - 1)
+            return max(lo, min(hi, int(a)))  # float -> int casts truncate toward zero and saturate
         if t[1] in INT_BITS and isinstance(a, int):
             return _wrap(a, t[1])
         if t[1] in ("f32", "f64"):
